@@ -730,7 +730,25 @@ def oracle_e2e(case):
     return fs, {'exit': [code, code2]}
 
 
-ORACLES = {'parse': oracle_parse, 'getbanner': oracle_getbanner, 'software': oracle_software, 'e2e': oracle_e2e}
+def oracle_parse_history(case):
+    """the parts and the flag of a line must not depend on what was parsed before it: the line's displayed form (every non-printable character
+    replaced by '?') is parsed first, then the line itself, then the displayed form again"""
+    from ssh_audit.banner import Banner
+    fs = []
+    line, disp = case['line'], shown(case['line'])
+    seq = [disp, line, disp] if case.get('order', 0) == 0 else [line, disp, line]
+    obs = None
+    for i, l in enumerate(seq):
+        b = banner_dict(Banner.parse(l))
+        if l == line:
+            obs = b
+        if b is not None and b['valid'] != printable(l):
+            _fail(fs, 'valid_ascii_depends_on_history', dict(case, parsed_before=seq[:i]), {'line': l, 'valid': b['valid']}, printable(l), 'Banner.parse after parsing look-alike lines')
+            break
+    return fs, obs
+
+
+ORACLES = {'parse': oracle_parse, 'parse-history': oracle_parse_history, 'getbanner': oracle_getbanner, 'software': oracle_software, 'e2e': oracle_e2e}
 
 CORPUS = [
     {'stream': 'parse', 'line': 'SSH-2.0-OpenSSH_7.3', 'expect': {'protocol': [2, 0], 'protocol_any': [[2, 0]], 'software': 'OpenSSH_7.3', 'comments': None, 'valid': True}},
@@ -835,8 +853,8 @@ def run(ctx):
                 per_sig[k] = per_sig.get(k, 0) + 1
                 if per_sig[k] <= 40:
                     failures.append(f)
-            if c['stream'] == 'parse':
-                key, nontrivial, shown_in = ('p', c['line']), obs is not None, c['line']
+            if c['stream'] in ('parse', 'parse-history'):
+                key, nontrivial, shown_in = (c['stream'], c['line']), obs is not None, c['line']
             elif c['stream'] in ('getbanner', 'e2e'):
                 key, nontrivial, shown_in = (c['stream'], tuple(c['chunks'])), bool(c['expect']['header'] or c['trailing']), c['chunks'][:3]
             else:
@@ -851,6 +869,13 @@ def run(ctx):
         k = min(50000, n_lines - done)
         process([gen_grammar(r) if i % 10 < 6 else gen_mutation(r) for i in range(k)])
         done += k
+    # look-alike lines one after the other (the same text with and without its non-printable characters)
+    hist = []
+    while len(hist) < ctx.scale(1500, 30000):
+        c = gen_mutation(r)
+        if c['stream'] == 'parse' and not printable(c['line']):
+            hist.append({'stream': 'parse-history', 'line': c['line'], 'order': len(hist) % 2, 'tags': ['parse-history']})
+    process([{'stream': 'parse-history', 'line': 'SSH-2.0-OpenSSH_8.0 build\x0742', 'order': 0, 'tags': ['corpus', 'parse-history']}] + hist)
     for mode, k in (('one', 2), ('per-line', 2), ('groups', 2), ('segmented', 6), ('crlf', 3), ('unterminated', 3), ('bytes', 1)):
         process([gen_stream(r, mode) for _ in range(ctx.scale(400, 8000) * k)])
     for _ in range(ctx.scale(12, 300)):
